@@ -156,7 +156,8 @@ func (m *Thread) Run() {
 			core.LogInfo(m, "Control command name ", interest.Name().String(), " has unexpected number of components - DROP")
 			continue
 		}
-		if !m.localPrefix.IsPrefix(interest.NameV) && !m.nonLocalPrefix.IsPrefix(interest.Name()) {
+		if !m.localPrefix.IsPrefix(interest.NameV) &&
+			!(enableLocalhopManagement && m.nonLocalPrefix.IsPrefix(interest.Name())) {
 			core.LogInfo(m, "Control command name ", interest.Name(), " has unexpected prefix - DROP")
 			continue
 		}
